@@ -151,10 +151,16 @@ func (x *XObject) Count() int {
 
 // Get retrieves the named property
 func (x *XObject) Get(key string) (XValue, bool) {
+	// an exact match always wins
+	if v, exists := x.properties()[key]; exists {
+		return v, true
+	}
+
+	// otherwise lookups are case-insensitive.. if several properties differ only by case, take the first in sorted order
 	key = strings.ToLower(key)
-	for p, v := range x.properties() {
+	for _, p := range x.Properties() {
 		if strings.ToLower(p) == key {
-			return v, true
+			return x.properties()[p], true
 		}
 	}
 
